@@ -746,6 +746,9 @@ func fieldAlias(t types.Type, st *types.Struct, i int) string {
 	}
 	key, unique := fieldTableKey(named, st, i)
 	if !unique {
+		if FieldAliasHook != nil {
+			return FieldAliasHook(named, st, i)
+		}
 		return ""
 	}
 	ref, ok := FieldTable[key]
@@ -759,6 +762,9 @@ func fieldAlias(t types.Type, st *types.Struct, i int) string {
 	}
 	return ref
 }
+
+// FieldAliasHook is asked for fields the table cannot tell apart (several fields of one type in a struct).
+var FieldAliasHook func(named *types.Named, st *types.Struct, i int) string
 
 func fieldTableKey(named *types.Named, st *types.Struct, i int) (string, bool) {
 	ts := strings.ReplaceAll(st.Field(i).Type().String(), ModulePath+"/", "")
